@@ -10,13 +10,17 @@ DRIVER = c03_model.DRIVER            # "C03model": correspondence implementation
 EXTRA_DRIVERS = [c03_spec.DRIVER_SPEC]
 EXTRA_TARGETS = ["Proofs/VMpyP.vo", "Proofs/VMpySigP.vo", "Proofs/VMpyTieC04.vo", "Proofs/CondStackP.vo",
                  "Extract/ExtractC03spec.vo"]
+EXTRA_PROPS = ["C03agree"]
 INTERACTIVE = True
 ORACLES = c03_model.ORACLES
 RULE = (c03_model.RULE_MODEL + "; direct checks: real pycoin (BitcoinVM.eval_script / Tx.check_solution) vs the extracted Core spec "
         "Spec/VMcore.v on generated scripts and spends (the spec itself re-validated on Core's script_tests/tx_valid/tx_invalid vectors each run)")
 PARTIAL = [
-    "agreement of Model/VMpy.v with Spec/VMcore.v is PROVED only for the condition-stack refinement, termination/fuel, dead-branch "
-    "inertness and the table ties; the per-opcode agreement is established by the differential run, not by a theorem",
+    "C03_eval_agrees (Props/C03agree.v) proves VMpy.eval_script = VMcore.EvalScript for ALL scripts under hypotheses c03_hyps: "
+    "(H1) MINIMALIF/WITNESS_PUBKEYTYPE clear for base scripts (check_solution strips them), (H2) a DER flag set or the oracle "
+    "answers false for blobs pycoin's lax DER reader rejects, (size) items below 2^32 bytes for base scripts",
+    "the spend pipeline (check_solution vs VerifyScript: P2SH / witness dispatch, CLEANSTACK, SIGPUSHONLY) is NOT covered by a "
+    "theorem; it is decided by the differential run (17k spends quick) and the correspondence",
     "flag sets with none of DERSIG/LOW_S/STRICTENC (Core's lax DER parser) are outside the agreement claim: open finding lax-der-parser",
     "ECDSA verification, key parsing and digest computation are folded into the o_checksig oracle (C01/C04/C10 own them)",
 ]
